@@ -37,8 +37,12 @@ DEFAULT_RLIM = [[INF, INF], [INF, INF], [INF, INF], [8388608, INF], [0, INF], [I
 
 
 def _proc(pid, elig, mask=None, nice=0, ioprio=0, rlim=None):
+    """limits are given Python-style (-1 = RLIM_INFINITY) and stored as the kernel holds them (rlim_t)"""
     return {"pid": pid, "nice": nice, "ioprio": ioprio, "mask": list(elig if mask is None else mask), "elig": list(elig),
-            "rlim": [list(x) for x in (rlim or DEFAULT_RLIM)]}
+            "rlim": [[S.u64(a), S.u64(b)] for a, b in (rlim or DEFAULT_RLIM)]}
+
+
+NOCAPS = {"nice": False, "admin": False, "resource": False}
 
 
 # affinity situations of the target process: (name, eligible, mask, ncpu)
@@ -53,12 +57,13 @@ SITUATIONS = [
 ]
 
 
-def _sim(cls, sit, req, nice=0, ioprio=0, rlim=None, extra_by=True):
+def _sim(cls, sit, req, nice=0, ioprio=0, rlim=None, extra_by=True, caps=None, nr_open=1048576, eff=False):
     name, elig, mask, ncpu = sit
     procs = [_proc(4242, elig, mask, nice, ioprio, rlim), _proc(4243, [0, 1, 2, 3], [1, 2], 3, (2 << 13) | 2)]
     if extra_by:
         procs.insert(0, _proc(77, [0, 1], [0], -5, (3 << 13)))
-    return {"kind": "sim", "cls": cls, "ncpu": ncpu, "nr": 64 if len(procs) == 2 else 200, "procs": procs, "pid": 4242, "req": req}
+    return {"kind": "sim", "cls": cls, "ncpu": ncpu, "nr": 64 if len(procs) == 2 else 200, "procs": procs, "pid": 4242, "req": req,
+            "caps": dict(caps or S.ROOT_CAPS), "nr_open": nr_open, "ioget_eff": eff}
 
 
 RL_VALUES = [[0, 0], [0, 1], [1, 1], [5, INF], [INF, INF], [2 ** 63 - 1, INF], [-2, INF]]
@@ -109,6 +114,44 @@ def gen_cases(rng, tier):
     for res, lim in [(-1, None), (16, None), (17, [1, 2]), (2 ** 31, None), (0, []), (1, [1]), (2, [1, 2, 3]), (3, [5, 3]), (4, [INF, 5]),
                      (5, [2 ** 63, 2 ** 63]), (6, [1, 2 ** 64]), (7, [0, 1, 2, 3]), (-1, [1]), (15, [-2 ** 63, -2 ** 63]), (9, [-3, -2])]:
         cases.append(_sim("rlimit-invalid", plain, ["rlimit", res, lim]))
+    # ---------------- permissions (EPERM / EACCES paths) and kernel variants
+    for caps in (NOCAPS, {"nice": True, "admin": False, "resource": False}, {"nice": False, "admin": True, "resource": False},
+                 {"nice": False, "admin": False, "resource": True}):
+        tag = "+".join(k for k in ("nice", "admin", "resource") if caps[k]) or "nocaps"
+        for start, soft13 in ((0, 0), (5, 0), (0, 25), (-3, 30), (10, 15)):
+            rl = [list(x) for x in DEFAULT_RLIM]
+            rl[13] = [soft13, 40]
+            for v in (-20, -10, -6, -5, -4, -1, 0, 4, 5, 6, 10, 19, -21, 25):
+                cases.append(_sim("perm-nice-" + tag, plain, ["nice", v], nice=start, rlim=rl, caps=caps))
+        for c in (0, 1, 2, 3):
+            for v in (None, 0, 4, 7, 8):
+                cases.append(_sim("perm-ionice-" + tag, plain, ["ionice", c, v], ioprio=(2 << 13) | 1, caps=caps))
+        for res, init, pairs in ((7, [1024, 4096], [[5, 4096], [5, 4097], [4096, 8192], [0, 1048576], [0, 1048577], [INF, INF], [5, 10]]),
+                                 (4, [0, 100], [[0, 100], [100, 100], [0, 101], [INF, INF], [5, INF], [0, 0]]),
+                                 (13, [0, 0], [[0, 0], [0, 1], [20, 40]]),
+                                 (0, [INF, INF], [[INF, INF], [5, INF], [-2, INF], [-5, -3], [-3, -5]])):
+            rl = [list(x) for x in DEFAULT_RLIM]
+            rl[res] = init
+            for pair in pairs:
+                cases.append(_sim("perm-rlimit-" + tag, plain, ["rlimit", res, pair], rlim=rl, caps=caps))
+    cases.append(_sim("perm-rlimit-nr_open", plain, ["rlimit", 7, [10, 2000]], nr_open=1999))
+    cases.append(_sim("perm-rlimit-nr_open", plain, ["rlimit", 7, [10, 2000]], nr_open=2000))
+    # ioprio_get reporting the effective class (kernels >= 5.18)
+    for nice0 in (-20, -7, 0, 3, 19):
+        for c in (None, 0, 1, 2, 3):
+            for v in (None, 0, 5):
+                cases.append(_sim("ionice-effective-get", plain, ["ionice", c, v], nice=nice0, ioprio=rng.choice([0, (2 << 13) | 7, 3 << 13]),
+                                  eff=True))
+        cases.append(_sim("nice-effective-get", plain, ["nice", rng.randint(-20, 19)], nice=nice0, ioprio=0, eff=True))
+    # rlimit: scalar limits, representation edge values
+    for res in (0, 7, 15, 16, -1):
+        for v in (5, 0, -1, 2 ** 70):
+            cases.append(_sim("rlimit-scalar", plain, ["rlimit_scalar", res, v]))
+    for pair in ([2 ** 63 - 1, 2 ** 63 - 1], [2 ** 63, 2 ** 63], [2 ** 64 - 1, 2 ** 64 - 1], [5, 2 ** 64 - 1], [-1, 2 ** 63 - 1], [2 ** 63 - 1, -1],
+                 [-2 ** 63, -1], [-2 ** 63, -2 ** 63], [-2 ** 63 - 1, -1], [-1, -2], [-2, -1], [0, -2 ** 63]):
+        cases.append(_sim("rlimit-representation", plain, ["rlimit", 2, pair]))
+    # the status parser alone: arbitrary lines before the key line, arbitrary text after it
+    cases.extend(_status_cases(rng, 60 if tier == "quick" else 1500 if tier == "thorough" else 200))
     # ---------------- random states / requests
     n_rand = {"quick": 120, "thorough": 6000, "search": 400}[tier]
     if tier == "thorough":
@@ -160,19 +203,58 @@ def _random_sim(rng):
         h = rng.choice([INF, 0, 5, 2 ** 63 - 1])
         req = ["rlimit", rng.choice(list(range(16)) + [-1, 16]),
                rng.choice([None, [rng.choice([0, 1, 5, INF]), h], [1], [1, 2, 3], [rng.choice([0, 1, 5, INF]), h]])]
+    caps = {k: rng.random() < 0.6 for k in ("nice", "admin", "resource")}
     c = _sim("random-" + req[0], sit, req, nice=rng.randint(-20, 19),
-             ioprio=rng.choice([0, (1 << 13) | 3, (2 << 13) | 7, 3 << 13, (2 << 13)]), rlim=rlim, extra_by=rng.random() < 0.5)
+             ioprio=rng.choice([0, (1 << 13) | 3, (2 << 13) | 7, 3 << 13, (2 << 13)]), rlim=rlim, extra_by=rng.random() < 0.5,
+             caps=caps, nr_open=rng.choice([1048576, 1024, 2 ** 40]), eff=rng.random() < 0.3)
     return c
+
+
+STATUS_LINES = [b"Name:\tsleep", b"Name:\tCpus_allowed_list:\t0-1", b"Name:\tCpus_allowed_list:", b"Umask:\t0022", b"State:\tS (sleeping)",
+                b"Tgid:\t4242", b"Pid:\t4242", b"PPid:\t1", b"Uid:\t0\t0\t0\t0", b"Groups:\t0 ", b"VmPeak:\t    1000 kB", b"Threads:\t1",
+                b"CapInh:\t0000000000000000", b"Cpus_allowed:\tffff", b"Cpus_allowed:\t0-3", b"xCpus_allowed_list:\t7-9",
+                b" Cpus_allowed_list:\t7-9", b"cpus_allowed_list:\t7-9", b"Cpus_allowed_list\t7-9", b"", b"\t", b"Cpus_allowed_lis",
+                b"Name:\t\\nCpus_allowed_list:\t5-6", b"Mems_allowed:\t1", b"Seccomp:\t0"]
+STATUS_POST = [b"", b"Mems_allowed_list:\t0\nvoluntary_ctxt_switches:\t1\nnonvoluntary_ctxt_switches:\t2\n",
+               b"Cpus_allowed_list:\t0-1023\n", b"Mems_allowed_list:\t0", b"\n\nCpus_allowed_list:\t9-12\nx"]
+
+
+def _status_cases(rng, n):
+    out = []
+    for i in range(n):
+        ncpu = rng.choice([1, 2, 4, 8, 16, 64])
+        universe = rng.choice([8, 16, 40, 300, 1024])
+        k = rng.random()
+        if k < 0.2:
+            mask = sorted(rng.sample(range(universe), rng.randint(1, min(universe, 6))))
+        elif k < 0.4:
+            a = rng.randrange(universe)
+            mask = list(range(a, min(universe, a + rng.randint(1, 12))))
+        else:
+            mask = sorted(c for c in range(universe) if rng.random() < rng.choice([0.2, 0.5, 0.8]) ) or [rng.randrange(universe)]
+            mask = mask[:64]
+        pre = [rng.choice(STATUS_LINES) for _ in range(rng.choice([0, 1, 3, 8, 15]))]
+        has_range = any(b == a + 1 for a, b in zip(mask, mask[1:]))
+        out.append({"kind": "status", "cls": "status-" + ("ranges" if has_range else "singles") + ("-spoofname" if any(b"Name:\tCpus" in l for l in pre) else ""),
+                    "pre": [l.hex() for l in pre], "post": rng.choice(STATUS_POST).hex(), "mask": mask, "ncpu": ncpu})
+    return out
 
 
 # ------------------------------------------------------------------ live cases
 def _machine():
-    """(eligible CPUs of a fresh child as the kernel clips them, number of cpuN lines in /proc/stat, nr_open)"""
+    """facts of this box: eligible CPUs of a fresh child as the kernel clips them, number of cpuN lines in /proc/stat,
+    effective capabilities of this process, fs.nr_open, whether ioprio_get reports the effective class for NONE"""
     import subprocess
     c = subprocess.Popen(["sleep", "5"])
+    eff = False
     try:
         os.sched_setaffinity(c.pid, range(1024))
         elig = sorted(os.sched_getaffinity(c.pid))
+        try:
+            S.raw_ioprio_set(c.pid, 0)
+            eff = S.raw_ioprio_get(c.pid) != 0
+        except OSError:
+            pass
     finally:
         c.kill()
         c.wait()
@@ -182,19 +264,39 @@ def _machine():
         for ln in f:
             if ln.startswith("cpu"):
                 ncpu += 1
-    return elig, ncpu
+    capeff = 0
+    with open("/proc/self/status") as f:
+        for ln in f:
+            if ln.startswith("CapEff:"):
+                capeff = int(ln.split()[1], 16)
+    caps = {"admin": bool(capeff >> 21 & 1), "nice": bool(capeff >> 23 & 1), "resource": bool(capeff >> 24 & 1)}
+    with open("/proc/sys/fs/nr_open") as f:
+        nr_open = int(f.read())
+    return {"elig": elig, "ncpu": ncpu, "caps": caps, "nr_open": nr_open, "eff": eff}
+
+
+_MACHINE = {}
+
+
+def _m():
+    if not _MACHINE:
+        _MACHINE.update(_machine())
+    return _MACHINE
 
 
 def _live(cls, elig, ncpu, req, mask=None, nice=0, ioprio=0, rlim=None):
     procs = [_proc(1000, elig, mask, nice, ioprio, rlim), _proc(1001, elig, elig[:2], 3, (2 << 13) | 2, rlim)]
-    return {"kind": "live", "cls": cls, "ncpu": ncpu, "nr": 1024, "procs": procs, "pid": 1000, "req": req}
+    m = _m()
+    return {"kind": "live", "cls": cls, "ncpu": ncpu, "nr": 1024, "procs": procs, "pid": 1000, "req": req,
+            "caps": dict(m["caps"]), "nr_open": m["nr_open"], "ioget_eff": m["eff"]}
 
 
 def _live_cases(rng, tier):
     import platform
     if platform.machine() != "x86_64" or os.geteuid() != 0:
         return []
-    elig, ncpu = _machine()
+    m = _m()
+    elig, ncpu = m["elig"], m["ncpu"]
     out = []
     for v in range(-20, 20):
         out.append(_live("live-nice-set", elig, ncpu, ["nice", v], nice=rng.choice([0, 5, -5])))
@@ -232,7 +334,7 @@ def _live_cases(rng, tier):
     base = [list(resource.getrlimit(r)) for r in range(16)]
     for c in out:
         for pr in c["procs"]:
-            pr["rlim"] = [list(x) for x in base]
+            pr["rlim"] = [[S.u64(a), S.u64(b)] for a, b in base]
     for res in range(16):
         H = base[res][1]
         cand = [[0, 0], [0, 1], [1, 1], [5, INF], [INF, INF], [7, H], [H, H], [0, H], [base[res][0], H], [2 ** 63 - 1, INF]]
@@ -247,6 +349,15 @@ def _live_cases(rng, tier):
         out.append(_live("live-rlimit-get", elig, ncpu, ["rlimit", res, None], rlim=base))
         for lim in ([], [1], [1, 2, 3], [5, 3]):
             out.append(_live("live-rlimit-invalid", elig, ncpu, ["rlimit", res, lim], rlim=base))
+        out.append(_live("live-rlimit-scalar", elig, ncpu, ["rlimit_scalar", res, 5], rlim=base))
+        if H != INF:
+            # raising the hard limit: AccessDenied without CAP_SYS_RESOURCE, success with it (fresh pair: irreversible either way)
+            for pair in ([base[res][0], H + 1], [H + 1, H + 1], [0, INF]):
+                if res == 7 and S.u64(pair[1]) > m["nr_open"] and m["caps"]["resource"]:
+                    continue
+                c = _live("live-rlimit-raise-hard", elig, ncpu, ["rlimit", res, pair], rlim=base)
+                c["fresh"] = True
+                out.append(c)
     return out
 
 
@@ -269,6 +380,8 @@ def _req_term(req):
         return "(Affinity %s)" % _opt(req[1], _zl)
     if k == "rlimit":
         return "(Rlimit %s %s)" % (G.z(req[1]), _opt(req[2], _zl))
+    if k == "rlimit_scalar":
+        return "(RlimitScalar %s %s)" % (G.z(req[1]), G.z(req[2]))
     raise ValueError(k)
 
 
@@ -277,30 +390,35 @@ def _proc_term(p):
     return "(%s, Build_proc %s %s %s %s %s)" % (G.z(p["pid"]), G.z(p["nice"]), G.z(p["ioprio"]), _zl(p["mask"]), _zl(p["elig"]), rl)
 
 
-_machine_cache = {}
-
-
 def _fill_auto(case):
     """A live corpus case carries only the request; the machine-dependent start state is filled in here."""
-    if not _machine_cache:
-        import resource
-        elig, ncpu = _machine()
-        _machine_cache.update(elig=elig, ncpu=ncpu, base=[list(resource.getrlimit(r)) for r in range(16)])
-    m = _machine_cache
+    import resource
+    m = _m()
+    base = [list(resource.getrlimit(r)) for r in range(16)]
     mask = {"fresh": None, "last": m["elig"][-1:], "two": m["elig"][:2]}[case.get("state", "fresh")]
-    full = _live(case.get("cls", "live-corpus"), m["elig"], m["ncpu"], case["req"], mask=mask, rlim=m["base"])
+    full = _live(case.get("cls", "live-corpus"), m["elig"], m["ncpu"], case["req"], mask=mask, rlim=base)
     for k, v in full.items():
         case.setdefault(k, v)
 
 
 def coq_term(case):
+    if case["kind"] == "status":
+        return "run_status %s %s %s %s" % (G.lst([G.by(bytes.fromhex(l)) for l in case["pre"]]), G.by(bytes.fromhex(case["post"])),
+                                           _zl(case["mask"]), G.z(case["ncpu"]))
     if case.get("auto") and "procs" not in case:
         _fill_auto(case)
-    k = "(Build_kernel %s %s %s)" % (G.lst([_proc_term(p) for p in case["procs"]]), G.z(case["ncpu"]), G.z(case["nr"]))
+    if "caps" not in case:
+        S.normalise(case)        # corpus files written before the kernel had these parameters
+    c = case["caps"]
+    k = "(Build_kernel %s %s %s %s %s %s %s %s)" % (G.lst([_proc_term(p) for p in case["procs"]]), G.z(case["ncpu"]), G.z(case["nr"]),
+                                                    G.bo(c["nice"]), G.bo(c["admin"]), G.bo(c["resource"]), G.z(case["nr_open"]),
+                                                    G.bo(case["ioget_eff"]))
     return "run_case %s %s %s" % (k, G.z(case["pid"]), _req_term(case["req"]))
 
 
 def coq_struct(case, raw):
+    if case["kind"] == "status":
+        return {"printed": raw[0], "model": raw[1], "spec": None}
     if raw[6] is not True:
         raise RuntimeError("C18 generator produced an ill-formed kernel state: %r" % (case,))
     return {"printed": raw[0], "model": [raw[1], raw[2], raw[3], raw[4]], "spec": raw[5]}
@@ -313,6 +431,8 @@ def judge(case, coq, impl):
     from pv.core import Verdict
     if isinstance(impl, dict) and impl.get("t") == "Skip":
         return Verdict("skip", str(impl.get("a")))
+    if case["kind"] == "status":
+        return Verdict("ok") if impl == coq["model"] else Verdict("corr", "_get_eligible_cpus(): impl != model")
     m = coq["model"][0]
     if isinstance(m, dict) and m.get("t") == "OutOfModel":
         return Verdict("skip", "OutOfModel")
